@@ -212,6 +212,15 @@ class C04(Prop):
             for i in range(case["n"]):
                 n = int(2 ** r.uniform(1.6, 12)) if i % 4 else r.randrange(3, 64)
                 raw = r.randbytes(min(n, 4096))
+                if i % 8 == 5:
+                    # byte strings that start or end the way the protocol's own frames and templates do (magic, zeroed or
+                    # placeholder length word, terminator, key padding), followed by anything
+                    head = r.choice(["fef0", "fef00000", "fef00000" + "0232", "fef05d00", "fef0" + len(raw).to_bytes(2, "little").hex(),
+                                     "fef0" + (len(raw) + 8).to_bytes(2, "little").hex(), "f0fe", "0000", "3030"])
+                    raw = bytes.fromhex(head) + raw
+                    if r.random() < 0.3:
+                        raw += bytes.fromhex(r.choice(["f0fe", "30" * 32, "00000000"]))
+                    acc.count("inputs_that_look_like_protocol_frames")
                 spelling = i % 3
                 h = raw.hex()
                 if spelling == 1:
